@@ -139,6 +139,27 @@ def fieldValuesLoop : Nat → Iter.AnyIt → R (List (Ty × Node))
 def fieldValues (fs : List Ty) (n : Node) : R (List (Ty × Node)) :=
   fieldValuesLoop (fs.length + 1) (Iter.start (.container fs) n true)
 
+
+/-! ## the remaining small public methods (`New()`, `BackedView`, basic `SetBacking`, `tree.Root` as a value) -/
+
+/-- `td.New()` of every composite type definition: `td.Default(nil)` asserted to the view type -/
+def newBacking (h : HashFn) (t : Ty) : R Node := defaultNode h t
+
+/-- `BackedView.Copy()` and `BackedView.Default(hook)`: `TypeDef.ViewFromBacking(BackingNode, …)` —
+    a view of the same type over the SAME node (nothing is copied; trees are immutable) -/
+def backedCopy (t : Ty) (n : Node) : R Node :=
+  if viewFromBackingOk t n then .ok n else .error .other
+
+/-- `SetBacking` of the basic value views (`Uint8View` … `Uint256View`, `BoolView`): always the
+    error `BasicViewNoSetBackingError`; the value (a Go value receiver) is untouched -/
+def basicSetBacking (v : Val) (_b : Node) : Option Err × Val := (some .other, v)
+
+/-- `tree.Root` used as a value: `ByteLength`, `ValueByteLength`, `HashTreeRoot`, `Serialize` -/
+def rootByteLength : Nat := 32
+def rootValueByteLength : R Nat := .ok 32
+def rootHashTreeRoot (_h : HashFn) (r : Root) : Root := r
+def rootSerialize (r : Root) : Bytes := r
+
 /-! ## the `As*` casts -/
 
 /-- dynamic Go type behind a `View` -/
